@@ -195,11 +195,16 @@ class LifecycleOracle:
                           f"event of {d['task']} is {ev} (state {st}), not SPA_NOT_FOUND", sig="missing-not-found")
         if ev == "LOCATING_STARTED":
             self.locate_pass[task] = {"second": prev == "LOCATED_SPAS", "disc0": self.discovered}
+        if d.get("raised") and task in self.locate_pass:
+            self.locate_pass[task]["raised"] = True      # the client's handler failed inside this pass: the pass raises, no outcome is owed
+        if ev == "LOCATING_STARTED":
+            pass
         elif ev == "LOCATING_DISCOVERED_SPA":
             self.discovered += 1
         elif ev == "LOCATING_FINISHED":
             lp = self.locate_pass.pop(task, None)
-            if lp is not None and lp["second"] and self.discovered == lp["disc0"] and not self._reset_in_progress() and not d.get("cancelled_in_handler"):
+            if lp is not None and lp["second"] and self.discovered == lp["disc0"] and not self._reset_in_progress() and not d.get("cancelled_in_handler") \
+                    and not lp.get("raised") and not d.get("raised"):
                 self.owe_not_found[task] = (t, self.resets_seen)
         anns = self.pending_ann.pop(task, [])
         changed_at_ann = [a for a in anns if a["st"] != a["prev"]]
